@@ -296,6 +296,79 @@ func checkExploreHeapOrder(c *Ctx, rule string) {
 		c.Unresolved(rule, next.Name()+":cut", next.Decl.Pos(), "no `if top.Acc() < level { break }` cut found")
 		return
 	}
+	// the explore loop (the loop that pops the explore heap) is left only when the heap is empty or at the generation
+	// cut: any other exit leaves the in-degrees of the remaining entries' ancestors uncounted (upstream's
+	// compute_indegrees_to_depth stops at the cut-off only)
+	ast.Inspect(next.Decl.Body, func(n ast.Node) bool {
+		loop, ok := n.(*ast.ForStmt)
+		if !ok {
+			return true
+		}
+		popsExplore := nodeHasCall(loop.Body, false, func(call *ast.CallExpr) bool {
+			sel, ok := unparen(call.Fun).(*ast.SelectorExpr)
+			if !ok || sel.Sel.Name != "Pop" {
+				return false
+			}
+			inner, ok := unparen(sel.X).(*ast.SelectorExpr)
+			return ok && inner.Sel.Name == "exploreStack"
+		}) != nil
+		if !popsExplore {
+			return true
+		}
+		k := 0
+		var walk func(st ast.Stmt, conds []ast.Expr)
+		walk = func(st ast.Stmt, conds []ast.Expr) {
+			switch v := st.(type) {
+			case *ast.BranchStmt:
+				if v.Tok != token.BREAK {
+					return
+				}
+				k++
+				why := ""
+				if len(conds) > 0 {
+					cond := unparen(conds[len(conds)-1])
+					if u, ok := cond.(*ast.UnaryExpr); ok && u.Op == token.NOT {
+						if id, ok := unparen(u.X).(*ast.Ident); ok && id.Name == "ok" {
+							why = "the heap is empty"
+						}
+					}
+					if be, ok := cond.(*ast.BinaryExpr); ok && (be.Op == token.LSS || be.Op == token.LEQ) {
+						if call, ok := unparen(be.X).(*ast.CallExpr); ok {
+							if sel, ok := unparen(call.Fun).(*ast.SelectorExpr); ok {
+								if _, isAcc := accs[sel.Sel.Name]; isAcc {
+									why = "the generation cut (" + sel.Sel.Name + ")"
+								}
+							}
+						}
+					}
+				}
+				desc := "unconditional"
+				if len(conds) > 0 {
+					desc = exprString(conds[len(conds)-1])
+				}
+				c.Check(why != "", rule, next.Name()+":explore-exit#"+itoa(k)+" ["+desc+"]", v.Pos(), orStr(ifStr(why == "", "the explore loop is left for a reason other than an empty heap or the generation cut: the in-degrees of the remaining entries' ancestors are never counted, so parents can be emitted before their children and again later"), why))
+			case *ast.IfStmt:
+				for _, s := range v.Body.List {
+					walk(s, append(conds[:len(conds):len(conds)], v.Cond))
+				}
+				if els, ok := v.Else.(*ast.BlockStmt); ok {
+					for _, s := range els.List {
+						walk(s, append(conds[:len(conds):len(conds)], v.Cond))
+					}
+				} else if els, ok := v.Else.(*ast.IfStmt); ok {
+					walk(els, conds)
+				}
+			case *ast.BlockStmt:
+				for _, s := range v.List {
+					walk(s, conds)
+				}
+			}
+		}
+		for _, s := range loop.Body.List {
+			walk(s, nil)
+		}
+		return true
+	})
 	// comparators handed to binaryheap.NewWith in the package
 	comps := map[*FuncInfo]bool{}
 	for _, fi := range p.FuncsIn(cgo) {
